@@ -7,6 +7,7 @@ LEMMAS = {
     "L2": lambda prog, res: lemmas.lemma_L2(prog, res),
     "L2quick": lambda prog, res: lemmas.lemma_L2(prog, res, methods=["section_data", "segment_data_as_notes"], classes=("ELF64",)),
     "L3": lambda prog, res: lemmas.lemma_L3(prog, res),
+    "L5": lambda prog, res: lemmas.lemma_L5(prog, res),
 }
 
 
